@@ -129,6 +129,87 @@ func runOneshot(arg string) {
 	fmt.Println(outcomeHash(generate(f, gs)))
 }
 
+// runOneshotConc is the child side of freshProcessConc: the FIRST calls of the process are made by several
+// goroutines at once (tables built lazily on first use, without a lock, are only ever exposed like this: any
+// earlier sequential call hides them). Prints the common outcome hash, or DIFF.
+func runOneshotConc(arg string) {
+	t := strings.Split(arg, "|")
+	if len(t) != 4 {
+		fmt.Println("ERR bad oneshot argument")
+		return
+	}
+	text, err := os.ReadFile(t[0])
+	if err != nil {
+		fmt.Println("ERR", err)
+		return
+	}
+	mode, _ := strconv.Atoi(t[2])
+	oi, _ := strconv.Atoi(t[3])
+	gs := optionSets[oi]
+	gs.ImportGenerationMode = bebop.ImportGenerationMode(mode)
+	const n = 16
+	outs := make([]string, n)
+	start := make(chan struct{})
+	var wg sync.WaitGroup
+	for w := 0; w < n; w++ {
+		wg.Add(1)
+		go func(w int) {
+			defer wg.Done()
+			<-start
+			if w%4 == 3 {
+				_ = bebop.Format(bytes.NewReader(text), new(bytes.Buffer))
+			}
+			f, _, err := bebop.ReadFile(bytes.NewReader(text))
+			if err != nil {
+				outs[w] = "ERR " + err.Error()
+				return
+			}
+			f.FileName = t[1]
+			outs[w] = outcomeHash(generate(f, gs))
+		}(w)
+	}
+	close(start)
+	wg.Wait()
+	for _, o := range outs {
+		if o != outs[0] {
+			fmt.Println("DIFF", outs[0], o)
+			return
+		}
+	}
+	fmt.Println(outs[0])
+}
+
+// freshProcessConc: as freshProcess, with the first calls concurrent. died != "" when the child crashed (a data
+// race report of the race detector, "concurrent map read and map write", a panic).
+func freshProcessConc(text []byte, fileName string, mode bebop.ImportGenerationMode, oi int) (got string, ok bool, died string) {
+	if workDir == "" {
+		return "", false, ""
+	}
+	os.MkdirAll(workDir, 0o755)
+	tf, err := os.CreateTemp(workDir, "oneshotc*.bop")
+	if err != nil {
+		return "", false, ""
+	}
+	defer os.Remove(tf.Name())
+	tf.Write(text)
+	tf.Close()
+	cmd := exec.Command(os.Args[0], "-oneshotc", fmt.Sprintf("%s|%s|%d|%d", tf.Name(), fileName, int(mode), oi))
+	var stderr bytes.Buffer
+	cmd.Stderr = &stderr
+	out, err := cmd.Output()
+	if err != nil {
+		if _, isExit := err.(*exec.ExitError); isExit {
+			msg := strings.TrimSpace(stderr.String())
+			if len(msg) > 600 {
+				msg = msg[:600]
+			}
+			return "", true, fmt.Sprintf("%v: %s", err, msg)
+		}
+		return "", false, ""
+	}
+	return strings.TrimSpace(string(out)), true, ""
+}
+
 // freshProcess runs the same Generate call as the FIRST call of a new process and returns its outcome hash:
 // "a function of its input alone" excludes what the process generated before (tables built once, caches).
 func freshProcess(text []byte, fileName string, mode bebop.ImportGenerationMode, oi int) (string, bool) {
@@ -283,6 +364,14 @@ func checkSchema(class string, text []byte, fileName string, modes []bebop.Impor
 					}
 					count(class+"/fresh-process", key+fk)
 				}
+				if got, ok, died := freshProcessConc(text, fileName, mode, oi); ok {
+					if want := outcomeHash(ref, refErr); died != "" {
+						fail("oracle", class, text, "ReadFile / Format / Generate as the first calls of a process, from 16 goroutines", want, died, "the process died: the first use of the package is not safe for concurrent callers")
+					} else if got != want {
+						fail("oracle", class, text, "ReadFile / Format / Generate as the first calls of a process, from 16 goroutines", want, got, "concurrent first calls gave a different result")
+					}
+					count(class+"/fresh-process-concurrent", key+fk)
+				}
 			}
 			// concurrent calls sharing one File value (the race detector watches)
 			var wg sync.WaitGroup
@@ -343,8 +432,13 @@ func main() {
 	repo := flag.String("repo", "/repo", "")
 	out := flag.String("out", "", "")
 	replay := flag.String("replay", "", "")
+	oneshotc := flag.String("oneshotc", "", "internal: as -oneshot, the first calls made by 16 goroutines at once")
 	oneshot := flag.String("oneshot", "", "internal: <schema file>|<file name for imports>|<mode>|<option set>: print the hash of ONE Generate call, the first of this process")
 	flag.Parse()
+	if *oneshotc != "" {
+		runOneshotConc(*oneshotc)
+		return
+	}
 	if *oneshot != "" {
 		runOneshot(*oneshot)
 		return
